@@ -103,7 +103,22 @@ func symKeyF(v ssa.Value, fr *symFrame, depth int) string {
 	case *ssa.TypeAssert:
 		return k(x.X)
 	case *ssa.BinOp:
-		return "(" + k(x.X) + x.Op.String() + k(x.Y) + ")"
+		kx, ky := k(x.X), k(x.Y)
+		// operands of a commutative operation in one order, whatever the source has
+		// (constants are already on the right: canonOperands)
+		switch x.Op {
+		case token.ADD, token.MUL, token.AND, token.OR, token.XOR, token.EQL, token.NEQ:
+			_, cx := x.X.(*ssa.Const)
+			_, cy := x.Y.(*ssa.Const)
+			isStr := false
+			if bt, ok := x.X.Type().Underlying().(*types.Basic); ok && bt.Info()&types.IsString != 0 {
+				isStr = true
+			}
+			if !cx && !cy && !isStr && ky < kx {
+				kx, ky = ky, kx
+			}
+		}
+		return "(" + kx + x.Op.String() + ky + ")"
 	case *ssa.Slice:
 		if al, ok := x.X.(*ssa.Alloc); ok && al.Comment == "varargs" {
 			var els []string
